@@ -164,6 +164,8 @@ func (b *binding) emitGetP() {
 func (b *binding) emitSet() {
 	if b.isConst {
 		if b.isStrict || b.scope.c.scope.strict {
+			// an assignment inside the temporal dead zone is a ReferenceError, not a TypeError
+			b.emitGetP()
 			b.scope.c.emit(throwAssignToConst)
 		}
 		return
@@ -179,6 +181,7 @@ func (b *binding) emitSet() {
 func (b *binding) emitSetP() {
 	if b.isConst {
 		if b.isStrict || b.scope.c.scope.strict {
+			b.emitGetP()
 			b.scope.c.emit(throwAssignToConst)
 		}
 		return
